@@ -25,6 +25,7 @@ class CoreGen:
         self.funcs = []
         self.uses_rec = False
         self.uses_arr = False
+        self.while_stack = []        # (counter, bound) of the enclosing while loops, innermost last
 
     def fresh(self, p):
         self.n += 1
@@ -52,9 +53,12 @@ class CoreGen:
         r = self.rng.random()
         if depth >= 2 or r < 0.35:
             return self.int_atom(env)
-        if r < 0.85:
+        if r < 0.78:
             self.features.add("arith")
             return ("bin", self.pick(["+", "-", "*", "+", "-"]), self.int_expr(env, depth + 1, calls), self.int_expr(env, depth + 1, calls))
+        if r < 0.86:
+            self.features.add("unary-minus")
+            return ("neg", ("bin", self.pick(["+", "-"]), self.int_atom(env), self.int_atom(env)) if self.rng.random() < 0.7 else self.int_atom(env))
         if self.funcs and calls:
             f = self.pick(self.funcs)
             self.features.add("call")
@@ -63,9 +67,12 @@ class CoreGen:
 
     def cond(self, env, depth=0):
         r = self.rng.random()
-        if r < 0.8 or depth > 0:
+        if r < 0.7 or depth > 0:
             self.features.add("compare")
             return ("cmp", self.pick(["<", "<=", ">", ">=", "==", "!="]), self.int_atom(env), self.int_atom(env))
+        if r < 0.82:
+            self.features.add("not")
+            return ("not", self.cond(env, 1))
         self.features.add("boolop")
         return ("bool", self.pick(["and", "or"]), self.cond(env, 1), self.cond(env, 1))
 
@@ -128,19 +135,29 @@ class CoreGen:
             if els is not None:
                 self.features.add("else")
             return ("if", self.cond(env), then, els)
-        if r < 0.78 and depth < 2:
+        if r < 0.78 and depth < 3 and (depth < 2 or self.rng.random() < 0.5):
             self.features.add("while")
             k = self.fresh("k")
             extra = self.cond(env) if self.rng.random() < 0.3 else None
             env[k] = INT
+            bound = self.rng.randint(0, 3)
+            self.while_stack.append((k, bound))
             body = self.block(dict(env), depth + 1, True, in_func)
-            return ("while", k, self.rng.randint(0, 3), extra, body)
+            if self.rng.random() < 0.35:
+                # a `continue` taken exactly on the iteration after which the loop condition turns false, placed first
+                # (the counter is incremented before it), and an observable statement after it
+                self.features.add("continue-on-last-iteration")
+                body = [("if", ("cmp", "==", ("var", k), ("int", max(bound, 1))), [("continue",)], None), ("out", ("var", k))] + body
+            self.while_stack.pop()
+            return ("while", k, bound, extra, body)
         if r < 0.85 and depth < 2:
             self.features.add("for")
             i = self.fresh("i")
             env2 = dict(env)
             env2[i] = INT
+            self.while_stack.append(None)
             body = self.block(env2, depth + 1, True, in_func)
+            self.while_stack.pop()
             return ("for", i, self.rng.randint(0, 3), body)
         if r < 0.89 and in_loop:
             kw = self.pick(["break", "continue"])
@@ -230,6 +247,10 @@ def interpret(prog, budget=100000):
             if abs(r) > 2 ** 30:
                 raise Budget()          # keep every intermediate inside all languages' int range
             return r
+        if k == "neg":
+            return -ev(e[1], env)
+        if k == "not":
+            return not ev(e[1], env)
         if k == "cmp":
             a, b = ev(e[2], env), ev(e[3], env)
             return {"<": a < b, "<=": a <= b, ">": a > b, ">=": a >= b, "==": a == b, "!=": a != b}[e[1]]
@@ -318,7 +339,7 @@ def interpret(prog, budget=100000):
 class Renderer:
     lang = ""
     ext = ""
-    AND, OR = "&&", "||"
+    AND, OR, NOT = "&&", "||", "!"
 
     def __init__(self, ident):
         self.ident = ident
@@ -343,6 +364,10 @@ class Renderer:
             return f"({self.expr(e[2])} {e[1]} {self.expr(e[3])})"
         if k == "cmp":
             return f"({self.expr(e[2])} {e[1]} {self.expr(e[3])})"
+        if k == "neg":
+            return f"(-{self.expr(e[1])})"
+        if k == "not":
+            return f"({self.NOT}{self.expr(e[1])})"
         if k == "bool":
             return f"({self.expr(e[2])} {self.AND if e[1] == 'and' else self.OR} {self.expr(e[3])})"
         if k == "field":
@@ -382,7 +407,7 @@ class Renderer:
         elif k == "setelem":
             self.emit(ind, f"{self.v(s[1])}[{s[2]}] = {self.expr(s[3])}{self.END}")
         elif k == "if":
-            self.emit(ind, f"if ({self.expr(s[1])[1:-1] if s[1][0] in ('cmp', 'bool') else self.expr(s[1])}) {{")
+            self.emit(ind, f"if ({self.expr(s[1])[1:-1] if s[1][0] in ('cmp', 'bool', 'not') else self.expr(s[1])}) {{")
             self.block(ind + 1, s[2])
             if s[3] is not None:
                 self.emit(ind, "} else {")
@@ -485,7 +510,7 @@ class TsR(JsR):
 
 class PyR(Renderer):
     lang, ext = "python", "py"
-    AND, OR, END = "and", "or", ""
+    AND, OR, END, NOT = "and", "or", "", "not "
 
     def let(self, ind, name, ty, e):
         self.emit(ind, f"{name} = {self.expr(e)}")
